@@ -9,7 +9,7 @@ CW=/tmp/cw-$NAME
 git -C /repo worktree remove --force $CW 2>/dev/null
 git -C /repo worktree add --detach $CW HEAD -q || exit 3
 trap 'git -C /repo worktree remove --force '$CW' 2>/dev/null; git -C /repo checkout -- . 2>/dev/null' EXIT
-cp "$SD/demo_test.go" $CW/$PKG/zz_seeded_demo_test.go
+mkdir -p $CW/$PKG; cp "$SD/demo_test.go" $CW/$PKG/zz_seeded_demo_test.go
 ( cd $CW && go test -count=1 -run "$PAT" ./$PKG/ >/tmp/cw-$NAME.clean.log 2>&1 ); CLEAN=$?
 ( cd $CW && git apply "$SD/patch.diff" ) || { echo "RESULT $NAME: patch does not apply to current HEAD"; exit 4; }
 ( cd $CW && go build ./... >/tmp/cw-$NAME.build.log 2>&1 ); BUILD=$?
